@@ -36,13 +36,13 @@ UNITS['flag'] = dict(
     name='flag', engine='kani', crate='.', inject=[('src/flag.rs', K + 'flag.rs')], flags=FFI,
     scan=[K + 'libc_model.rs', K + 'libc_shim.c'],
     harnesses={
-        'c15_flag_set': dict(props=['C15']),
-        'c15_flag_usize': dict(props=['C15']),
-        'c15_cond_shutdown': dict(props=['C15']),
+        'c15_flag_set': dict(props=['C15', 'C14', 'C03']),
+        'c15_flag_usize': dict(props=['C15', 'C14', 'C03']),
+        'c15_cond_shutdown': dict(props=['C15', 'C14', 'C03']),
     })
 
 obl('C15.SET', 'flag::register (action closure)', 'after each of two deliveries, with arbitrary application writes before and between, the flag is true')
-obl('C15.SET-SIG', 'flag::register*', 'exactly one registration, for the requested signal number')
+obl('C15.SET-SIG', 'flag::register*', 'exactly one registration through the checked registry entry point, for the requested signal number, all c_int (so forbidden/invalid numbers get the registry verdict)', also=['C14'])
 obl('C15.SET-PURE', 'flag::register (action closure)', 'the flag action makes no system call')
 obl('C15.VALUE', 'flag::register_usize (action closure)', 'after each delivery the flag holds exactly the registered value (all usize)')
 obl('C15.EXIT-IFF', 'flag::register_conditional_shutdown (action closure)', '_exit is reached iff the condition loads true during that delivery; otherwise the delivery returns')
@@ -76,7 +76,13 @@ for _o in ('C17.RS-SIGNAL', 'C17.RS-TABLE', 'C17.RS-PROCESS-IFF', 'C17.RS-PID'):
     REPLAYERS[_o] = _R.replay_c17_rs
 REPLAYERS['C16.KIND'] = _R.replay_c16_kind
 HOOK_COMMITS = []
-NOT_APPLICABLE = {}
+_HIDE = ('C02', 'C04', 'C05', 'C14', 'C09', 'C10')  # checks still being brought up; removed one by one
+NOT_APPLICABLE = {
+ 'C03': 'no check of its own: its obligations (read side wait-free, no lock / no wait inside a delivery, reader counts balanced, one system call per built-in action) are discharged inside the C01/C02/C09/C13/C15 checks; "never allocates or frees" cannot be expressed (Kani implements the allocator in its C runtime, it cannot be stubbed) and "bounded steps wherever other threads are paused" reduces to C01/C08; see DESIGN.md 9.2',
+}
+for _p in ('C02', 'C04', 'C05', 'C14', 'C09', 'C10'):
+    if _p in PROPS and _p in globals().get('_HIDE', ()):
+        PROPS[_p]['hidden'] = True
 
 # --------------------------------------------------------------------------------------------
 UNITS['sigdetails'] = dict(
@@ -117,7 +123,7 @@ UNITS['pipe'] = dict(
     name='pipe', engine='kani', crate='.', inject=[('src/low_level/pipe.rs', K + 'pipe.rs')], flags=FFI,
     rewrite=[('src/low_level/pipe.rs', r'\blibc::fcntl\(', 'verif_kani::fcntl3(', 2)],
     scan=[K + 'libc_model.rs', K + 'libc_shim.c'],
-    harnesses={'c13_wake': dict(props=['C13']), 'c13_register': dict(props=['C13'])})
+    harnesses={'c13_wake': dict(props=['C13', 'C03']), 'c13_register': dict(props=['C13', 'C14', 'C03'], auto_obl='C14.PIPE-NO-PANIC')})
 obl('C13.ONE-ATTEMPT', 'pipe::wake, action closure of pipe::register_raw', 'exactly one libc call per wake/delivery for every return value and errno; no loop')
 obl('C13.ONE-BYTE', 'pipe::wake', 'length 1, to the registered fd')
 obl('C13.DONTWAIT', 'pipe::wake', 'Send => send(.., MSG_DONTWAIT); Write => write')
@@ -125,7 +131,9 @@ obl('C13.DELIVERY-NONBLOCKING', 'pipe::register_raw + WakeFd::set_flags', 'metho
 obl('C13.REJECT-INVALID', 'pipe::register_raw', 'invalid fd (send/fcntl fail with EBADF) => Err, register never reached')
 obl('C13.CLOSE-ON-ERR', 'pipe::register_raw', 'fcntl failure => Err, no write, fd closed once')
 obl('C13.CLOSE-ONCE', 'WakeFd::drop', 'exactly one close(fd), as the last event, when the action is dropped')
-obl('C13.REGISTER-ONCE', 'pipe::register_raw', 'exactly one registry registration')
+obl('C13.REGISTER-ONCE', 'pipe::register_raw', 'exactly one registry registration', also=['C14'])
+obl('C14.PIPE-RELEASE', 'pipe::register_raw', 'forbidden signal: the action handed to the registry owns the fd; dropping it closes the fd exactly once')
+obl('C14.PIPE-NO-PANIC', 'pipe::register_raw, pipe::register', 'no panic inside the pipe front-end itself for any input (refusal happens in the registry, after the fd has an owner)')
 PROPS['C13'] = dict(
     level='proof', units=['pipe'],
     trusted=L('A3', 'A4', 'A5', 'A10', 'A12') + ['"reader sees <= deliveries bytes and >= 1 since last drain" follows from ONE-ATTEMPT + kernel pipe/socket semantics (not machine-checked)'],
@@ -292,7 +300,7 @@ obl('C11.ONE-CALLBACK', FB + 'SignalDelivery::poll_pending', 'callback consulted
 obl('C11.PENDING-ONLY-IF-ARMED', FB + 'SignalIterator::poll_signal', 'Pending => callback consulted during this call and last answer Ok(false); close() may land between any two loads')
 obl('C11.CLOSED-ONLY-IF-CLOSED', FB + 'SignalIterator::poll_signal', 'Closed => the flag was seen true')
 obl('C12.ERR-PASSTHROUGH', FB + 'Handle::add_signal', 'Err iff registration failed')
-obl('C12.REGISTER-ONCE', FB + 'Handle::add_signal', 'one registration attempt, for the requested number')
+obl('C12.REGISTER-ONCE', FB + 'Handle::add_signal', 'one registration attempt through the checked registry entry point, for the requested number', also=['C14'])
 obl('C12.RETRY', FB + 'Handle::add_signal + exfiltrator/raw.rs: WithRawSiginfo::init', 'after Err the same add_signal again behaves like a first call (no "Init called multiple times" panic)')
 obl('C12.IDEMPOTENT', FB + 'Handle::add_signal', 're-adding a watched signal: Ok, no registration')
 obl('C12.DROP-ALL', FB + 'DeliveryState::drop', 'unregister called exactly for the ids recorded, once each')
@@ -317,19 +325,81 @@ PROPS['C12'] = dict(level='other', units=['backend', 'backend_small', 'native_c1
     explanation='add_signal over all accepted c_int with the registry answering Ok/Err nondeterministically, twice in a row; teardown unregisters exactly what was registered.')
 
 # --------------------------------------------------------------------------------------------
-_MAPRW = [('signal-hook-registry/src/lib.rs', r'use std::collections::hash_map::Entry;', '#[cfg(not(kani))] use std::collections::hash_map::Entry;\n#[cfg(kani)] use verif_kani::Entry;', 1),
-          ('signal-hook-registry/src/lib.rs', r'use std::collections::\{BTreeMap, HashMap\};', 'use std::collections::BTreeMap;\n#[cfg(not(kani))] use std::collections::HashMap;\n#[cfg(kani)] use verif_kani::SmallMap as HashMap;', 1)]
+_RS = 'signal-hook-registry/src/lib.rs'
+_MAPRW = [(_RS, r'use std::collections::hash_map::Entry;', '#[cfg(not(kani))] use std::collections::hash_map::Entry;\n#[cfg(kani)] use verif_kani::Entry;', 0),
+          (_RS, r'use std::collections::\{BTreeMap, HashMap\};', '#[cfg(not(kani))] use std::collections::{BTreeMap, HashMap};\n#[cfg(kani)] use verif_kani::OrdMap as BTreeMap;\n#[cfg(kani)] use verif_kani::SmallMap as HashMap;', 0),
+          (_RS, r'(?m)^use std::collections::HashMap;', '#[cfg(not(kani))] use std::collections::HashMap;\n#[cfg(kani)] use verif_kani::SmallMap as HashMap;', 0),
+          (_RS, r'(?m)^use std::collections::BTreeMap;', '#[cfg(not(kani))] use std::collections::BTreeMap;\n#[cfg(kani)] use verif_kani::OrdMap as BTreeMap;', 0)]
+_SHAPE_S = 'bounded(registry state: <= 2 signals, <= 1 action each, symbolic ids/next_id/signal numbers; inductive step, not a history)'
+_SHAPE_L = 'bounded(registry state: 2 signals with <= 2 and <= 1 actions, symbolic ids/next_id/signal numbers; inductive step)'
 UNITS['registry'] = dict(
-    name='registry', engine='kani', crate='signal-hook-registry', inject=[('signal-hook-registry/src/lib.rs', K + 'registry.rs')], flags=FFI,
+    name='registry', engine='kani', crate='signal-hook-registry', inject=[('signal-hook-registry/src/lib.rs', K + 'registry.rs'), ('signal-hook-registry/src/half_lock.rs', K + 'half_lock_contract.rs', 'verif_contract', 'pub(crate)')], flags=FFI,
     rewrite=_MAPRW, scan=[K + 'libc_model.rs'], timeout={'quick': 1500, 'thorough': 3600},
     harnesses={
         'c04_prev_execute': dict(props=['C04']),
         'c05_slot_new': dict(props=['C05', 'C04', 'C14']),
         'c14_registry_check_first': dict(props=['C14'], expected_panics=r'Attempted to register forbidden signal|placeholder message|assertion failed'),
         'c14_forbidden_list': dict(props=['C14']),
-        'c14_err_no_publish': dict(props=['C14']),
-        'c05_history': dict(props=['C05', 'C02']),
-        'c05_unregister_signal': dict(props=['C05']),
-        'c04_chain': dict(props=['C04']),
-        'c04_window': dict(props=['C04']),
+        # per-operation contracts from an arbitrary small registry state (WriteGuard::store replaced by its contract)
+        'c05_op_unregister_small': dict(props=['C05', 'C02', 'C18'], kind='bounded', bound=_SHAPE_S),
+        'c05_op_unregister_signal_small': dict(props=['C05', 'C18'], kind='bounded', bound=_SHAPE_S),
+        'c05_op_register_occupied_small': dict(props=['C05', 'C02', 'C18'], kind='bounded', bound=_SHAPE_S),
+        'c04_op_register_vacant': dict(props=['C04', 'C05', 'C18'], kind='bounded', bound=_SHAPE_S),
+        'c02_op_handler': dict(props=['C02', 'C04', 'C03'], kind='bounded', bound=_SHAPE_L),
+        'c14_op_register_refused': dict(props=['C14', 'C18'], kind='bounded', bound=_SHAPE_S),
+        'c05_op_unregister': dict(props=['C05', 'C02', 'C18'], tier='thorough', kind='bounded', bound=_SHAPE_L),
+        'c05_op_unregister_signal': dict(props=['C05', 'C18'], tier='thorough', kind='bounded', bound=_SHAPE_L),
+        'c05_op_register_occupied': dict(props=['C05', 'C02', 'C18'], tier='thorough', kind='bounded', bound=_SHAPE_L),
+        # bounded histories through the real mutators (very expensive; thorough only)
+        'c05_history': dict(props=['C05', 'C02'], tier='thorough', kind='bounded', bound='bounded(one fixed history shape, symbolic signals)'),
+        'c04_chain': dict(props=['C04'], tier='thorough', kind='bounded', bound='bounded(one fixed history shape)'),
     })
+FR = 'registry lib.rs: '
+obl('C04.EXEC-NONE', FR + 'Prev::execute', 'SIG_DFL / SIG_IGN / 0: nothing is called (all sa_flags)')
+obl('C04.EXEC-ONE', FR + 'Prev::execute', 'handler without SA_SIGINFO: called once with (sig)')
+obl('C04.EXEC-THREE', FR + 'Prev::execute', 'handler with SA_SIGINFO: called once with the same (sig, info, ctx) pointers')
+obl('C04.PREV-FROM-SWAP', FR + 'Slot::new, register_unchecked_impl', 'slot.prev is the disposition returned by the installing sigaction call')
+obl('C04.REG-ORDER', FR + 'register_unchecked_impl (vacant)', 'query -> publish fallback(Some(prev of this signal)) -> install -> publish slot; checked at the instant of each sigaction', kind='bounded(state shape)')
+obl('C04.GAP-FREE', FR + 'register_unchecked_impl + handler', 'a delivery at the instant the install call returns runs the previous handler once and no action', kind='bounded(state shape)')
+obl('C04.FIRST', FR + 'handler', 'previous handler runs before every action, once', kind='bounded(state shape)')
+obl('C04.FALLBACK-ONLY-UNSLOTTED', FR + 'handler', 'no slot + fallback for this signal => chained once', kind='bounded(state shape)')
+obl('C04.FALLBACK-MATCH', FR + 'handler', 'fallback of another signal / no fallback => nothing runs', kind='bounded(state shape)')
+obl('C05.INSTALL-ONCE', FR + 'Slot::new, register_unchecked_impl', 'exactly one installing sigaction per first registration (query + install), none on later registrations')
+obl('C05.FLAGS', FR + 'Slot::new', 'installs {handler, SA_RESTART|SA_SIGINFO}, asks for the old action, all c_int')
+obl('C05.HANDLER-ADDR', FR + 'Slot::new', 'installed handler is the library dispatcher')
+obl('C05.UNREG-IFF-LIVE', FR + 'unregister', 'result == (id.action in view[id.signal]) for symbolic id', kind='bounded(state shape)')
+obl('C05.UNREG-SIGNAL', FR + 'unregister_signal', 'result == (view[sig] non-empty); exactly that key emptied; slots kept', kind='bounded(state shape)')
+obl('C05.PUBLISH-IFF-CHANGED', FR + 'unregister, unregister_signal, register_unchecked_impl', 'store called once, under the writer mutex, iff the view changes', kind='bounded(state shape)', also=['C01', 'C02'])
+obl('C05.ID-FRESH', FR + 'register_unchecked_impl, unregister*', 'returned id == next_id; next_id only ever +1 on publish; never decreases', kind='bounded(state shape)', also=['C02'])
+obl('C05.REMOVE-ONLY-IT', FR + 'unregister, unregister_signal', 'whole-view postcondition: every other action and signal unchanged', kind='bounded(state shape)')
+obl('C05.REG-OK', FR + 'register_unchecked_impl', 'occupied: cannot fail; vacant: Ok when both sigaction calls succeed', kind='bounded(state shape)')
+obl('C05.REG-APPEND', FR + 'register_unchecked_impl', 'whole-view postcondition: view[sig] gains exactly the new id; nothing else changes', kind='bounded(state shape)')
+obl('C02.COPY-UNDER-MUTEX', FR + 'unregister, unregister_signal, register_unchecked_impl', 'mutators never enter a reader section: the copy they modify is read under the writer mutex', kind='bounded(state shape)', also=['C01', 'C05'])
+obl('C02.ID-MONO', FR + 'register_unchecked_impl + handler', 'the newest action runs after all older ones of its signal', kind='bounded(state shape)')
+obl('C02.ORDER', FR + 'handler', 'log of a delivery == actions of that signal in the snapshot, each once, in id order', kind='bounded(state shape)')
+obl('C02.ONLY-SIG', FR + 'handler', 'actions of other signals never run', kind='bounded(state shape)')
+obl('C03.READ-BALANCED', FR + 'handler', 'reader counts restored, no mutex touched', kind='bounded(state shape)')
+obl('C03.NO-LOCK', FR + 'handler', 'Mutex::lock is never reached inside a delivery', never=True, absent_ok=r'Mutex :: < T > :: lock -> delivery_lock_stub')
+obl('C03.NO-WAIT', FR + 'handler', 'yield_now / spin_loop never reached inside a delivery', never=True, absent_ok=r'yield_now -> delivery_wait_stub')
+obl('C14.CHECK-FIRST', FR + 'register, register_sigaction (register_sigaction_impl)', 'forbidden signal => panic before GlobalData::ensure (nothing touched); all c_int')
+obl('C14.REFUSE-OR-REGISTER', FR + 'all four entry points', 'never returns without either panicking or reaching the registry', never=True)
+obl('C14.LIST', FR + 'FORBIDDEN', 'exactly {KILL, STOP, ILL, FPE, SEGV}, all c_int')
+obl('C14.ERR-PROPAGATE', FR + 'Slot::new, Prev::detect, register_unchecked_impl', 'Err iff a sigaction call failed')
+obl('C14.ERR-NO-PUBLISH', FR + 'register_unchecked_impl', 'refused registration: no data store, view and next_id unchanged, action never runs', kind='bounded(state shape)')
+obl('C14.STAYS-USABLE', FR + 'register_unchecked_impl', 'locks released on the error path', kind='bounded(state shape)')
+obl('C18.MUTATOR-RELEASES', FR + 'all mutators', 'return with both writer mutexes free and no reader section open', kind='bounded(state shape)')
+obl('C18.LOCK-ORDER', FR + 'register_unchecked_impl', 'fallback lock taken and released inside the data lock', kind='bounded(state shape)')
+obl('C18.NO-SELF-DEADLOCK', FR + 'all', 'a mutex is never requested while held by the same thread', never=True, absent_ok=r'Mutex :: < T > :: lock -> delivery_lock_stub')
+_TR = L('A2', 'A3', 'A4', 'A5', 'A8', 'A9', 'A10', 'A11') + ['WriteGuard::store replaced by its contract (new value becomes the snapshot; old one released after the grace period) - proved separately on the real body (C01.S-*)', 'HashMap/BTreeMap replaced, in the scratch copy, by fixed-capacity vector maps with the same API (mechanical rewrite of the two use lines); every other line of lib.rs and half_lock.rs is the real code', 'per-operation contracts from an arbitrary bounded-shape state are the inductive step; the induction over histories and the linearization at the swap are by the argument in DESIGN.md']
+PROPS['C02'] = dict(level='other', units=['registry'], trusted=_TR,
+    technique='per-operation function contracts (whole-view postconditions) on the real mutators and dispatcher from an arbitrary bounded-shape registry state, Kani/CBMC',
+    explanation='One snapshot per delivery, actions of that signal only, in id order (= registration order since ids are handed out increasing); mutators copy-modify-publish once under the writer mutex. Bounded state shape; histories by induction.')
+PROPS['C04'] = dict(level='other', units=['registry'], trusted=_TR,
+    technique='function contract of Prev::execute (complete) + ordering contract of the first registration checked at the instant of each sigaction call, Kani/CBMC',
+    explanation='Prev::execute proved for all dispositions/flags; first registration publishes the fallback before installing and the slot after; a delivery injected at the install instant chains exactly once.')
+PROPS['C05'] = dict(level='other', units=['registry'], trusted=_TR,
+    technique='per-operation function contracts with whole-view postconditions on register/unregister/unregister_signal + complete contract of Slot::new, Kani/CBMC',
+    explanation='Each operation, from an arbitrary bounded-shape state satisfying the invariant, changes the view exactly as the model says (ids fresh and increasing, only the addressed action removed, slots never removed, handler installed once with SA_RESTART|SA_SIGINFO).')
+PROPS['C14'] = dict(level='proof', units=['registry', 'flag', 'pipe', 'backend'], trusted=_TR + L('A12'),
+    technique='checks-before-effects contracts on every checked entry point over all c_int, Kani/CBMC',
+    explanation='Registry entry points refuse forbidden numbers before touching global state; front-ends (flags, pipe, iterator) delegate to them with the same number (C15.SET-SIG, C13.REGISTER-ONCE, C12.REGISTER-ONCE/C14.ITER-*); OS refusals propagate without publishing.')
